@@ -221,8 +221,11 @@ def _probe_work(chunk):
     out = []
     n = 0
     for impl, hist, probe_idx in chunk:
-        if run_probe(impl, hist, PROBES[probe_idx], out):
-            n += 1
+        try:
+            if run_probe(impl, hist, PROBES[probe_idx], out):
+                n += 1
+        except report.Livelock as e:
+            out.append(report.livelock_violation(impl, e, {'impl': impl, 'case': {'history': list(hist), 'probe': PROBES[probe_idx][1]}}))
     return [v.to_json() for v in out[:400]], n, len(out)
 
 
